@@ -58,11 +58,50 @@ type reaction struct {
 	wellformed bool
 	echo       []byte
 	closed     bool
+	outs       []map[string]any
 }
 
 func isTimeout(err error) bool {
 	var ne net.Error
 	return errors.As(err, &ne) && ne.Timeout()
+}
+
+// classify decodes one clientbound status-phase frame into the reaction record.
+func classify(p mcwire.Packet, frame []byte, r *reaction) map[string]any {
+	switch {
+	case p.ID == 0x00:
+		r.got = "response"
+		rd := mcwire.NewRd(p.Data)
+		s := rd.Str()
+		var doc struct {
+			Version *struct {
+				Name     *string `json:"name"`
+				Protocol *int    `json:"protocol"`
+			} `json:"version"`
+			Players *struct {
+				Online *int `json:"online"`
+				Max    *int `json:"max"`
+			} `json:"players"`
+			Description json.RawMessage `json:"description"`
+		}
+		out := map[string]any{"got": "response", "wellformed": false, "protocol": 0, "online": 0, "echo": []int{}}
+		if rd.Err == nil && rd.Len() == 0 && json.Unmarshal([]byte(s), &doc) == nil &&
+			doc.Version != nil && doc.Version.Protocol != nil && doc.Version.Name != nil &&
+			doc.Players != nil && doc.Players.Online != nil && doc.Players.Max != nil && len(doc.Description) > 0 {
+			r.wellformed = true
+			r.protocol = *doc.Version.Protocol
+			r.online = *doc.Players.Online
+			out["wellformed"], out["protocol"], out["online"] = true, r.protocol, r.online
+		}
+		return out
+	case p.ID == 0x01:
+		r.got = "pong"
+		r.echo = frame
+		return map[string]any{"got": "pong", "wellformed": true, "protocol": 0, "online": 0, "echo": tracefmt.Bytes(frame)}
+	default:
+		r.got = fmt.Sprintf("unexpected-0x%x", p.ID)
+		return map[string]any{"got": r.got, "wellformed": false, "protocol": 0, "online": 0, "echo": []int{}}
+	}
 }
 
 // react collects the proxy's reaction: packets until the connection is closed or quiet.
@@ -76,7 +115,7 @@ func react(c *mcwire.Conn) (r reaction, err error) {
 		} else {
 			c.Timeout = 5 * time.Second
 		}
-		p, e := c.ReadPacket()
+		fr, e := c.ReadFrame()
 		if e != nil {
 			if isTimeout(e) {
 				return r, nil
@@ -84,40 +123,39 @@ func react(c *mcwire.Conn) (r reaction, err error) {
 			r.closed = true
 			return r, nil
 		}
-		r.n++
-		switch {
-		case p.ID == 0x00:
-			r.got = "response"
-			rd := mcwire.NewRd(p.Data)
-			s := rd.Str()
-			var doc struct {
-				Version *struct {
-					Name     *string `json:"name"`
-					Protocol *int    `json:"protocol"`
-				} `json:"version"`
-				Players *struct {
-					Online *int `json:"online"`
-					Max    *int `json:"max"`
-				} `json:"players"`
-				Description json.RawMessage `json:"description"`
-			}
-			if rd.Err == nil && rd.Len() == 0 && json.Unmarshal([]byte(s), &doc) == nil &&
-				doc.Version != nil && doc.Version.Protocol != nil && doc.Version.Name != nil &&
-				doc.Players != nil && doc.Players.Online != nil && doc.Players.Max != nil && len(doc.Description) > 0 {
-				r.wellformed = true
-				r.protocol = *doc.Version.Protocol
-				r.online = *doc.Players.Online
-			}
-		case p.ID == 0x01:
-			r.got = "pong"
-			r.echo = p.Data
-		default:
-			r.got = fmt.Sprintf("unexpected-0x%x", p.ID)
+		if len(fr) == 0 {
+			continue
 		}
+		frd := mcwire.NewRd(fr)
+		p := mcwire.Packet{ID: frd.VarInt()}
+		p.Data = frd.Rest()
+		r.n++
+		r.outs = append(r.outs, classify(p, fr, &r))
 		if r.n > 8 {
 			return r, nil
 		}
 	}
+}
+
+// pingFrame builds the frame payload of a status ping: packet id 1 (sometimes encoded as a
+// non-minimal VarInt, which vanilla accepts) followed by the 8-byte value.
+func pingFrame(rng *rand.Rand, salt int) []byte {
+	var v [8]byte
+	binary.BigEndian.PutUint64(v[:], rng.Uint64()^uint64(salt))
+	id := []byte{0x01}
+	if rng.Intn(3) == 0 {
+		id = []byte{0x81, 0x00}
+	}
+	return append(id, v[:]...)
+}
+
+func otherFrame(rng *rand.Rand) []byte {
+	// ids that are no status-phase packet in any version
+	if rng.Intn(2) == 0 {
+		b := []byte{byte(0x02 + rng.Intn(40))}
+		return append(b, make([]byte, rng.Intn(8))...)
+	}
+	return []byte{0x7f}
 }
 
 func TestReplay(t *testing.T) {
@@ -240,9 +278,9 @@ func TestReplay(t *testing.T) {
 					case "req":
 						werr = c.WritePacket(0x00, nil)
 					case "ping":
-						binary.BigEndian.PutUint64(payload[:], rng.Uint64()^uint64(s.P))
-						rec["payload"] = tracefmt.Bytes(payload[:])
-						werr = c.WritePacket(0x01, payload[:])
+						frame := pingFrame(rng, s.P)
+						rec["payload"] = tracefmt.Bytes(frame)
+						werr = c.WriteFrame(frame)
 					default:
 						// ids that are no status-phase packet in any version
 						if rng.Intn(2) == 0 {
@@ -266,6 +304,54 @@ func TestReplay(t *testing.T) {
 					log = append(log, rec)
 					if re.closed {
 						break
+					}
+				}
+				// the same history again, pipelined: every packet is written before anything is read
+				if len(h.H) > 1 {
+					c2, err := r.Dial()
+					if err == nil {
+						var sends []any
+						buf := mcwire.FramePayload(append([]byte{0}, rig.HandshakePayload(h.CP, "localhost", 25565, 1)...), -1)
+						for _, s := range h.H {
+							var frame []byte
+							switch s.K {
+							case "req":
+								frame = []byte{0x00}
+							case "ping":
+								frame = pingFrame(rng, s.P)
+							default:
+								frame = otherFrame(rng)
+							}
+							sends = append(sends, map[string]any{"k": s.K, "payload": tracefmt.Bytes(frame)})
+							buf = append(buf, mcwire.FramePayload(frame, -1)...)
+						}
+						_, werr := c2.C.Write(buf)
+						if werr == nil {
+							var outs []any
+							closed := false
+							for len(outs) < 8 {
+								c2.Timeout = 5 * time.Second
+								fr, e := c2.ReadFrame()
+								if e != nil {
+									closed = !isTimeout(e)
+									break
+								}
+								if len(fr) == 0 {
+									continue
+								}
+								frd := mcwire.NewRd(fr)
+								p := mcwire.Packet{ID: frd.VarInt()}
+								p.Data = frd.Rest()
+								var dummy reaction
+								outs = append(outs, classify(p, fr, &dummy))
+							}
+							if outs == nil {
+								outs = []any{}
+							}
+							recs = append(recs, tracefmt.Rec{"ev": "reset", "cp": h.CP, "online": online, "phase": ph.name, "supported": sup, "max": max, "hist": hi, "pipelined": true},
+								tracefmt.Rec{"ev": "pipe", "sends": sends, "outs": outs, "closed": closed})
+						}
+						c2.Close()
 					}
 				}
 				mu.Lock()
